@@ -102,6 +102,24 @@ func execute(h *run.H, tr *hist.Trace, draw func(w *hist.World, i int) (hist.Ste
 			st = tr.Steps[i]
 		}
 		switch st.Kind {
+		case "restart":
+			// a node-local event: replica st.Replica is stopped between two blocks and started again on its data
+			// directory (real Prepare(), Info); the others keep running
+			if st.Replica > 0 && st.Replica < len(w.R) {
+				nr, err := sim.Restart(w.R[st.Replica], w.C, fmt.Sprintf("c01r%d", i))
+				if err != nil {
+					feats["restart-not-possible"]++ // harness-side (copy of a compacting database): not judged
+					if w.R[st.Replica].Closed() {
+						return nil, feats
+					}
+					break
+				}
+				w.R[st.Replica] = nr
+				feats["replica-restarted"]++
+				if nr.Panicked {
+					return &outcome{"node-panic", fmt.Sprintf("replica %d: the application panicked in %s when restarted after height %d", st.Replica, nr.PanicCall, w.C.Height)}, feats
+				}
+			}
 		case "jobs":
 			if st.Replica < len(w.R) && w.R[st.Replica].Role.IsWitness {
 				if touchJobs(w.R[st.Replica], st.Arg) > 0 {
@@ -228,7 +246,8 @@ func TestC01(t *testing.T) {
 		}
 		prof := hist.PickProfile(rt)
 		tr := &hist.Trace{Params: p, Roles: hist.Roles(p, 3), Profile: prof}
-		nb := hist.NewU(rt).Range(8, maxBlocks, "nblocks")
+		uu := hist.NewU(rt)
+		nb := uu.Range(8, maxBlocks, "nblocks")
 		var g *hist.Gen
 		blocks := 0
 		out, feats := execute(h, tr, func(w *hist.World, i int) (hist.Step, bool) {
@@ -244,6 +263,9 @@ func TestC01(t *testing.T) {
 				if last.Kind == "block" {
 					w.Observe(lastTxs, w.Results[len(w.Results)-1])
 				}
+			}
+			if blocks > 0 && len(tr.Steps) > 0 && tr.Steps[len(tr.Steps)-1].Kind == "block" && uu.N(15, "restart") == 0 {
+				return hist.Step{Kind: "restart", Replica: 1}, true
 			}
 			if prof == "eth" && rapid.IntRange(0, 5).Draw(rt, "jobs") == 0 {
 				return hist.Step{Kind: "jobs", Replica: rapid.IntRange(0, 1).Draw(rt, "jobrep"), Arg: rapid.SampledFrom([]string{"done", "done", "failed", "lose"}).Draw(rt, "jobhow")}, true
